@@ -394,3 +394,10 @@ add("so_destroy_dfcc", ["C18"], ["tu/sorter_destroy_dfcc.c"], "h_sorter_destroy_
     replace=["result_handler_destroy/result_handler_destroy__cap", "free/free__cap", "mtbl_reader_destroy/mtbl_reader_destroy__cap", "entry_vec_destroy/entry_vec_destroy__cap", "reader_vec_destroy/reader_vec_destroy__cap"],
     loops="loops/so_destroy.json", unwind=16, timeout=600, slice=1, strength="U", functions=["mtbl_sorter_destroy"],
     assumptions=["result_handler_destroy's contract: returns after the jobs in flight have been delivered, i.e. it may append any number of readers to the chunk list (assumed contract of mtbl/threadpool.c); destructors and free are capture contracts; up to 2^28 entries / readers (loop counters are 32-bit)"])
+add("rd_initfd_dfcc", ["C18", "C12"], ["tu/reader_initfd_dfcc.c"], "h_reader_initfd_dfcc", mode="dfcc", enforce="mtbl_reader_init_fd/mtbl_reader_init_fd__spec",
+    replace=["fstat/fstat__cap", "my_calloc/my_calloc__cap", "memcpy/memcpy__cap", "mmap/mmap__cap", "free/free__cap", "metadata_read/metadata_read__cap", "mtbl_reader_destroy/mtbl_reader_destroy__cap", "reader_init_madvise/reader_init_madvise__cap",
+             "mtbl_fixed_decode32/mtbl_fixed_decode32__cap", "mtbl_varint_decode64/mtbl_varint_decode64__cap", "mtbl_crc32c/mtbl_crc32c__cap", "block_init/block_init__cap", "mtbl_source_init/mtbl_source_init__cap"],
+    unwind=24, timeout=600, slice=1, strength="U", functions=["mtbl_reader_init_fd"],
+    assumptions=["fstat / mmap / trailer parser / decoders / checksum / block_init / source_init are capture contracts with arbitrary results (memory safety of the same function over real file bytes: c19_reader_open); mtbl_reader_destroy by its own contract (rd_destroy_dfcc)"])
+add("rd_destroy_dfcc", ["C18"], ["tu/reader_initfd_dfcc.c"], "h_reader_destroy_dfcc", mode="dfcc", enforce="mtbl_reader_destroy/mtbl_reader_destroy__spec",
+    replace=["munmap/munmap__cap", "free/free__cap", "block_destroy/block_destroy__cap", "mtbl_source_destroy/mtbl_source_destroy__cap"], unwind=8, timeout=300, slice=1, strength="U", functions=["mtbl_reader_destroy"], assumptions=["munmap / free / block_destroy / mtbl_source_destroy are capture contracts"])
